@@ -306,14 +306,62 @@ impl Prop for C13 {
 		};
 		(any::<bool>(), any::<bool>())
 			.prop_flat_map(move |(f1, f2)| {
-				(text(f1), text(f2), vec(op_strategy(Opt::new(Fam::Uri), false, tier), 0..5)).prop_map(|(text, other, ops)| Case { text, other, ops })
+				(text(f1), text(f2), vec(op_strategy(Opt::new(Fam::Uri), false, tier), 0..5), proptest::array::uniform4(0u8..7), 0u8..3).prop_map(|(text, other, ops, qf, related)| {
+					// a third of the time the two values share scheme, authority and path and differ in query and
+					// fragment only (absent, empty, or small values, independently on each side): ordering is then
+					// decided by the LATER components, in the documented order
+					if related == 0 {
+						let pool = [None, Some(""), Some("0"), Some("1"), Some("2"), Some("q"), Some("%30")];
+						let p = split(&text);
+						let mk = |q: u8, f: u8| {
+							let mut x = p.clone();
+							x.query = pool[q as usize % 7].map(|s| s.to_string());
+							x.fragment = pool[f as usize % 7].map(|s| s.to_string());
+							crate::oracle::split::recompose(&x)
+						};
+						return Case { text: mk(qf[0], qf[1]), other: mk(qf[2], qf[3]), ops };
+					}
+					Case { text, other, ops }
+				})
 			})
 			.boxed()
 	}
 
+	fn enumerate(_tier: Tier, shard: usize, nshards: usize, f: &mut dyn FnMut(Case, bool) -> bool) -> Vec<&'static str> {
+		// conversions reference -> full value hinge on "has a scheme": scheme of every length 1..=600 and the usual
+		// limits up to 70 000; and first segments with a ':' at such offsets (NOT a scheme: '_' is not a scheme character)
+		for (i, n) in gen::sweep_lengths(600, 70_000).into_iter().enumerate() {
+			if i % nshards != shard {
+				continue;
+			}
+			for text in [format!("s{}:p/q?r#f", "x".repeat(n)), format!("S{}://u@h:1/", "9".repeat(n)), format!("{}_:b/c", "a".repeat(n)), format!("./{}:b", "a".repeat(n)), format!("s:{}\u{e9}", "a".repeat(n))] {
+				if !f(Case { text, other: "s:p".into(), ops: vec![] }, true) {
+					return vec![];
+				}
+			}
+		}
+		vec!["scheme of every length 1..=600 and the usual limits up to 70 000, and non-scheme first segments with ':' at those offsets, through all 42 conversions"]
+	}
+
 	fn check(case: &Case, cx: &mut Ctx) -> Result<(), Failure> {
+		// every valid URI (reference) is a valid IRI (reference): whatever the URI family accepts the IRI family
+		// accepts (both verdicts are the library's own; near-valid hosts are generated on purpose)
+		if case.text.is_ascii() {
+			let t = case.text.as_str();
+			let (ur, ir) = (iref::UriRef::new(t).is_ok(), iref::IriRef::new(t).is_ok());
+			ensure!(!ur || ir, "uri-ref-not-an-iri-ref", "{:?} is accepted as a URI reference but rejected as an IRI reference", t);
+			let (u, i) = (iref::Uri::new(t).is_ok(), iref::Iri::new(t).is_ok());
+			ensure!(!u || i, "uri-not-an-iri", "{:?} is accepted as a URI but rejected as an IRI", t);
+			cx.obs(2);
+		}
 		if iref::IriRef::new(case.text.as_str()).is_err() {
 			cx.class("rejected-by-library");
+			return Ok(());
+		}
+		if !abnf::accepts_str(Ty::IriRef, &case.text) {
+			// the library accepts a text the RFC grammar does not derive: that is C01's subject; the conversion
+			// oracle below has no expectation for such a text
+			cx.class("accepted-by-library-but-underivable (a C01 matter)");
 			return Ok(());
 		}
 		conversions(&case.text, cx)?;
@@ -322,7 +370,7 @@ impl Prop for C13 {
 		gen::with_arena(&case.text, |s| conversions(s, cx).map_err(|f| Failure::new(format!("reused-buffer:{}", f.sig), format!("(input in a re-used buffer) {}", f.msg))))?;
 		// one non-ASCII scalar near the start or the end of otherwise ASCII text, at every alignment
 		// (word-at-a-time "is it ASCII" scans have an unaligned head and tail)
-		if case.text.is_ascii() && case.text.len() >= 8 && case.text.len() % 8 == 0 {
+		if case.text.is_ascii() && case.text.len() >= 8 && case.text.len() <= 400 && case.text.len() % 8 == 0 {
 			let n = case.text.len();
 			for p in (0..8).chain(n.saturating_sub(8)..n) {
 				let v = format!("{}\u{e9}{}", &case.text[..p], &case.text[p..]);
